@@ -807,6 +807,7 @@ def inline_new_members(trees, shape_all):
                             stored.add(t.id)
     # (setattr with a computed name sets table-driven data fields; it cannot define the new member of a pinned class)
     props, methods = {}, AnyReceiver()
+    methods.classes = {n for n, ds in defs.items() if any(isinstance(d, ast.ClassDef) for d in ds)}
     for mname, tree in trees.items():
         sh = shape_all.get(mname)
         if sh is None:
@@ -972,7 +973,10 @@ def _call_of(node, helpers, cls_helpers):
         h = cls_helpers[f.attr]
         if f.value.id in ("self", "cls") or getattr(h, "static", False):
             return h, not getattr(h, "static", False), via, node
-    if isinstance(cls_helpers, AnyReceiver) and isinstance(f, ast.Attribute) and f.attr in cls_helpers and _simple_receiver(f.value):
+    if isinstance(cls_helpers, AnyReceiver) and isinstance(f, ast.Attribute) and f.attr in cls_helpers and \
+            (_simple_receiver(f.value) or
+             # a freshly constructed receiver `Cls(...).m(a)`: bound to a temporary first (evaluated once, before the arguments)
+             isinstance(f.value, ast.Call) and isinstance(f.value.func, ast.Name) and f.value.func.id in getattr(cls_helpers, "classes", ())):
         return cls_helpers[f.attr], True, via, node
     return None
 
@@ -1110,9 +1114,22 @@ def _inline_in_function(fn, helpers, chelp, inlined):
             if e is None:
                 return node
             # every parameter must have been substitutable (no prologue): re-check
-            pro, _ = h.instantiate(call, method, set())
+            pro, body2 = h.instantiate(call, method, set())
             if pro:
-                return node
+                # one effectful argument, used once and evaluated before anything else in the helper's expression: it can stand
+                # where the parameter stood (same single evaluation, at the place of the call)
+                if len(pro) != 1 or not isinstance(pro[0].targets[0], ast.Name):
+                    return node
+                e2 = as_expression(body2)
+                tmp = pro[0].targets[0].id
+                uses = [n for n in ast.walk(e2) if isinstance(n, ast.Name) and n.id == tmp] if e2 is not None else []
+                if len(uses) != 1 or not _evaluated_first(ast.Expr(value=e2), uses[0]):
+                    return node
+                if e2 is uses[0]:
+                    e = pro[0].value
+                else:
+                    _replace_node(e2, uses[0], pro[0].value)
+                    e = e2
             nonlocal changed
             changed = True
             inlined.append(h.name)
@@ -1135,6 +1152,9 @@ def _inline_in_function(fn, helpers, chelp, inlined):
             elif isinstance(st, ast.Expr):
                 site = _call_of(st.value, helpers, chelp)
                 kind = "expr"
+            elif isinstance(st, ast.Raise) and st.exc is not None:
+                site = _call_of(st.exc, helpers, chelp)
+                kind = "raise"
             if site is None or site[0].fn is fn:
                 i += 1
                 continue
@@ -1164,6 +1184,10 @@ def _inline_in_function(fn, helpers, chelp, inlined):
                         return [ast.copy_location(ast.Assign(targets=[copy.deepcopy(tgt)], value=v, lineno=r.lineno), r)]
                 elif kind == "return":
                     k = lambda r: [r]
+                elif kind == "raise":
+                    if as_expression(body) is None:
+                        raise NotInlineable("raise of a block helper")
+                    k = lambda r, st=st: [ast.copy_location(ast.Raise(exc=r.value, cause=st.cause), st)]
                 elif kind == "yield":
                     k = lambda r: [ast.copy_location(ast.Expr(value=ast.Yield(value=r.value if r.value is not None
                                                                                else ast.Constant(value=None))), r)]
@@ -2683,6 +2707,67 @@ def fuse_generator_loops(tree, shape):
     return sorted(set(fused))
 
 
+def hoist_walrus(tree):
+    """N30: `if (x := E) is not None and ...:` -> `x = E` in front of the statement, when the assignment expression is the
+    first thing the statement evaluates (leftmost operand all the way down), so that the binding happens exactly once and
+    before anything else, as in the rewritten form.  Loop tests are left alone (they are evaluated once per iteration)."""
+    count = 0
+
+    def first_slot(e):
+        # (parent, field, index) of the first-evaluated leaf expression of e
+        parent, field, idx = None, None, None
+        cur = e
+        while True:
+            if isinstance(cur, ast.NamedExpr):
+                return parent, field, idx, cur
+            if isinstance(cur, ast.BoolOp):
+                parent, field, idx, cur = cur, "values", 0, cur.values[0]
+            elif isinstance(cur, ast.Compare):
+                parent, field, idx, cur = cur, "left", None, cur.left
+            elif isinstance(cur, ast.UnaryOp):
+                parent, field, idx, cur = cur, "operand", None, cur.operand
+            elif isinstance(cur, ast.BinOp):
+                parent, field, idx, cur = cur, "left", None, cur.left
+            else:
+                return None
+
+    def visit(stmts):
+        nonlocal count
+        i = 0
+        while i < len(stmts):
+            st = stmts[i]
+            holder = "test" if isinstance(st, ast.If) else "value" if isinstance(st, (ast.Assign, ast.Return, ast.Expr)) and \
+                getattr(st, "value", None) is not None else None
+            if holder:
+                e = getattr(st, holder)
+                slot = first_slot(e)
+                if slot and isinstance(slot[3].target, ast.Name):
+                    parent, field, idx, ne = slot
+                    name = ast.copy_location(ast.Name(ne.target.id, ast.Load()), ne)
+                    if parent is None:
+                        setattr(st, holder, name)
+                    elif idx is None:
+                        setattr(parent, field, name)
+                    else:
+                        getattr(parent, field)[idx] = name
+                    stmts.insert(i, ast.copy_location(ast.Assign([ast.Name(ne.target.id, ast.Store())], ne.value), st))
+                    count += 1
+                    continue
+            for f in ("body", "orelse", "finalbody"):
+                sub = getattr(st, f, None)
+                if isinstance(sub, list) and sub and isinstance(sub[0], ast.stmt):
+                    visit(sub)
+            for h in getattr(st, "handlers", []) or []:
+                visit(h.body)
+            i += 1
+
+    for fn in functions_of(tree).values():
+        visit(fn.body)
+    if count:
+        ast.fix_missing_locations(tree)
+    return count
+
+
 def normalise(tree, modname, shape_all=None, keep=frozenset()):
     """normalise `tree` in place against the pinned shape of module `modname`; returns a log dict"""
     shape_all = shape_all if shape_all is not None else load_shape()
@@ -2691,6 +2776,9 @@ def normalise(tree, modname, shape_all=None, keep=frozenset()):
         return log
     shape = shape_all[modname]
     log["constants"] = inline_constants(tree, shape)
+    hw = hoist_walrus(tree)
+    if hw:
+        log["walrus"] = hw
     uc = unchain(tree)
     if uc:
         log["unchained"] = uc
